@@ -53,11 +53,12 @@ fn any_payload() -> MockPayload {
     MockPayload { rem, cap, advanced: 0 }
 }
 
-/// A `Bytes` of symbolic length whose content is never touched (only `len()` is read by the encoders).
+/// A real `Bytes` of symbolic length 0..=BIG_LEN over a static array (all three short varint forms of
+/// the length field are reached; an 8-byte length would need a field section of >= 1 GiB).
+const BIG_LEN: usize = 16400;
+static BIG: [u8; BIG_LEN] = [0x5a; BIG_LEN];
 fn bytes_of_len(n: usize) -> Bytes {
-    // SAFETY (harness only): the slice is never dereferenced beyond MOCK_BYTES by the code under check;
-    // `Frame::encode` reads `len()` only.  Harnesses that read content use real static slices instead.
-    Bytes::from_static(unsafe { std::slice::from_raw_parts(MOCK_BYTES.as_ptr(), n) })
+    Bytes::from_static(&BIG[..n])
 }
 
 const OUT: usize = 32;
@@ -201,14 +202,16 @@ fn c14_frame_encode_data_header() {
     kani::cover!(written == 9);
 }
 
-// vp: props=C14; tag=C14.frame.headers; kind=complete; tier=quick
-// HEADERS: type 0x1, length == the encoded field section's length, for every length
+// vp: props=C14; tag=C14.frame.headers; kind=bounded; bound=field section <= 16400 bytes (1-, 2- and 4-byte length forms); tier=quick
+// HEADERS: type 0x1, length == the encoded field section's length.  The payload is a real `Bytes`, so its
+// length is bounded by the static array behind it; the code passes `len()` to `write_var`, which C16.encode
+// proves for all values < 2^62.
 #[kani::proof]
 #[kani::unwind(25)]
 #[kani::stub(fastrand::u64, stub_fastrand_u64)]
 fn c14_frame_encode_headers_header() {
     let n: usize = kani::any();
-    kani::assume((n as u64) < TWO62);
+    kani::assume(n <= BIG_LEN);
     let f: Frame<MockPayload> = Frame::Headers(bytes_of_len(n));
     let mut arr = [0u8; OUT];
     let written = encode_to(&f, &mut arr);
@@ -221,8 +224,8 @@ fn c14_frame_encode_headers_header() {
     }
     std::mem::forget(f);
     kani::cover!(n == 0);
+    kani::cover!(written == 3);
     kani::cover!(written == 5);
-    kani::cover!(written == 9);
 }
 
 // vp: props=C14; tag=C14.frame.single-varint; kind=complete; tier=quick
@@ -315,7 +318,7 @@ fn c14_frame_encode_never_h2_reserved_type() {
         0 => Frame::Data(any_payload()),
         1 => {
             let n: usize = kani::any();
-            kani::assume((n as u64) < TWO62);
+            kani::assume(n <= BIG_LEN);
             Frame::Headers(bytes_of_len(n))
         }
         2 => Frame::CancelPush(PushId::try_from(id).unwrap()),
@@ -347,7 +350,7 @@ fn c14_frame_encode_never_h2_reserved_type() {
     kani::cover!(which == 7);
 }
 
-// vp: props=C14; tag=C14.frameheader.pushpromise; kind=complete; tier=quick
+// vp: props=C14; tag=C14.frameheader.pushpromise; kind=bounded; bound=field section <= 16400 bytes; tier=quick
 // FrameHeader for PushPromise: len() == |varint(id)| + |field section|, header == varint(0x5) ++
 // varint(len) ++ varint(id).  (No API sends PUSH_PROMISE; checked because the helper is shared.)
 #[kani::proof]
@@ -356,7 +359,7 @@ fn c14_frameheader_pushpromise() {
     let id: u64 = kani::any();
     kani::assume(id < TWO62);
     let n: usize = kani::any();
-    kani::assume((n as u64) < TWO62 - 8);
+    kani::assume(n <= BIG_LEN);
     let pp = PushPromise { id, encoded: bytes_of_len(n) };
     assert!(pp.len() == spec_varint_len(id) + n);
     let mut arr = [0u8; OUT];
@@ -370,5 +373,5 @@ fn c14_frameheader_pushpromise() {
     assert_wire_eq(&arr, written, &want);
     std::mem::forget(pp);
     kani::cover!(written == 3);
-    kani::cover!(written == 17);
+    kani::cover!(written == 1 + 4 + 8);
 }
